@@ -222,9 +222,21 @@ class PathGen:
             return ["tup", self.gen_arg(chain, pdepth, False), self.gen_fns()]
         return ["p", self.gen_path(chain, maxlen=2, pdepth=pdepth, minlen=1)]
 
+    def gen_below(self, chain):
+        """a has-predicate that refers to itself from inside its own filter"""
+        rng = self.rng
+        vals = [c[-1] for c in (descendants(chain) if chain is not None else []) if not isinstance(c[-1], (dict, list))]
+        cases = [[enc(rng.choice(vals if vals and rng.random() < 0.8 else SCALARS)), ["v", rng.choice([True, 1, "y"])]]
+                 for _ in range(rng.randint(1, 2))]
+        dflt = ["x", "Boom"] if rng.random() < 0.05 else ["v", rng.choice([False, 0, None, ""])]
+        return ["below", rng.choice([["wc"], ["iwc"], ["gwc"], ["gwc"], ["s", None, None, None]]),
+                ["tab", "data", cases, dflt]]
+
     def gen_pred(self, chain, pdepth, custom=False):
         rng = self.rng
         prof = self.pred_profile
+        if prof == "below" and pdepth <= 1 and rng.random() < 0.7:
+            return self.gen_below(chain)
         r = rng.random()
         if custom:
             r = r * 0.25
@@ -251,6 +263,8 @@ class PathGen:
                 cases = [[rng.choice(["dict", "list", None]), self.gen_out()] for _ in range(rng.randint(1, 2))]
             return ["tab", sel, cases, self.gen_out()]
         if r < 0.30:
+            if rng.random() < 0.3 and pdepth < self.max_pred_depth:
+                return self.gen_below(chain)
             return ["nb", rng.choice(["m", "v", "x", "mt", "vt"]), self.gen_path(chain, maxlen=3, pdepth=pdepth, minlen=1)]
         if r < 0.62:
             return ["has", self.gen_arg(chain, pdepth, False), self.gen_fns()]
